@@ -115,6 +115,16 @@ static int TryKind_Cmp(var self, var obj) {
   return ((struct TryKind*)self)->id == ((struct TryKind*)obj)->id ? 0 : (guarded == 1 ? 1 : -1);
 }
 var TryKind = Cello(TryKind, Instance(Cmp, TryKind_Cmp));
+/* ... and kinds whose comparison raises and handles an exception of its own while the filters are being matched */
+struct ThrowKind { int64_t id; };
+static int ThrowKind_Cmp(var self, var obj) {
+  volatile int handled = 0;
+  try { throw(KeyError, "inside cmp"); } catch (e in KeyError) { handled = 1; }
+  if (type_of(obj) != type_of(self)) return 1;
+  return ((struct ThrowKind*)self)->id == ((struct ThrowKind*)obj)->id ? 0 : (handled ? 1 : -1);
+}
+var ThrowKind = Cello(ThrowKind, Instance(Cmp, ThrowKind_Cmp));
+static var ThrowKindA, ThrowKindB;
 /* ... and kinds that are plain value objects of a type with NO Cmp instance (matched by the default byte-wise comparison):
    two of them agree in their first 8 bytes */
 struct PlainKind { int64_t domain, code; };
@@ -122,13 +132,13 @@ var PlainKind = Cello(PlainKind);
 static var PlainK11, PlainK12, PlainK21;
 /* ... and status codes: Int objects whose values agree in their low 32 bits (a facility in the high half), Strings in prefix relation */
 static var IntK7, IntK7a, IntK7b, IntK7c, StrKa, StrKb;
-#define NK 32
+#define NK 34
 static int kind_sort(int i) { return i < 21 ? 0 : i < 23 ? 1 : 2; }
 static void run_pairs(void) {
   var K[NK] = { TypeError, ValueError, ClassError, IndexOutOfBoundsError, KeyError, OutOfMemoryError, IOError, FormatError, BusyError,
                 ResourceError, ProgramAbortedError, DivisionByZeroError, IllegalInstructionError, ProgramInterruptedError,
                 SegmentationError, ProgramTerminationError, UserErrA, UserErrB, UserErr, IOErrorRetry, IOKind, TryKindA, TryKindB, PlainK11, PlainK12, PlainK21,
-                IntK7, IntK7a, IntK7b, IntK7c, StrKa, StrKb };
+                IntK7, IntK7a, IntK7b, IntK7c, StrKa, StrKb, ThrowKindA, ThrowKindB };
   for (int fi = 0; fi < NK; fi++) for (int ti = 0; ti < NK; ti++) {
     /* kinds of different sorts meet as well: a type object as filter and a value object in flight (or the other way round) are
        simply different kinds - deciding that must not itself raise */
@@ -157,6 +167,7 @@ int main(int argc, char** argv) {
   ((struct PlainKind*)PlainK21)->domain = 2; ((struct PlainKind*)PlainK21)->code = 1;
   IntK7 = new_root(Int, $I(7)); IntK7a = new_root(Int, $I((1LL << 32) | 7)); IntK7b = new_root(Int, $I(7 - (1LL << 32))); IntK7c = new_root(Int, $I((1LL << 31) + 7));
   StrKa = new_root(String, $S("disk")); StrKb = new_root(String, $S("disk-full"));
+  ThrowKindA = new_root(ThrowKind); ((struct ThrowKind*)ThrowKindA)->id = 1; ThrowKindB = new_root(ThrowKind); ((struct ThrowKind*)ThrowKindB)->id = 2;
   TryKindA = new_root(TryKind); ((struct TryKind*)TryKindA)->id = 1; TryKindB = new_root(TryKind); ((struct TryKind*)TryKindB)->id = 2;
   FILE* f = fopen(argv[1], "r"); if (!f) { perror(argv[1]); return 9; }
   if (argc > 2) { ev_fd = open(argv[2], O_WRONLY | O_CREAT | O_TRUNC | O_APPEND, 0644); if (ev_fd < 0) { perror(argv[2]); return 9; } }
